@@ -197,7 +197,7 @@ VirtualOutputs(c, outputs, outs) ==
 \* control flow after an error is not a violation (the run is no longer followed), but whatever row IS yielded
 \* must still satisfy the predicates on the log alone and, where the rows agree, report the right outputs and vars().
 PostErrTolerated == {"item.kind", "item.class", "row.line", "row.inputs", "call.kind", "row.expected", "row.outputs.len",
-                     "row.outputs.sig", "rng.tape", "fault.lost", "fault.deviation", "fault.identity", "changed"}
+                     "row.outputs.sig", "rng.tape", "fault.lost", "fault.deviation", "fault.identity"}
 
 \* C02 on the log alone: the driver calls of one next() are accounted for by its item
 ProtoItem(c, r) ==
